@@ -204,15 +204,17 @@ Proof.
      cap (fst (fst r)) = cap h0 /\ asort (fst (fst r)) = asort h0).
   { induction rest as [|e rest IH]; intros kept h0 I0 c0 T0.
     - cbn [fold_left fst snd map filter]. rewrite app_nil_r in *. split; [eexists; exact T0|].
-      rewrite (tinv_abs _ _ T0), map_length. auto.
+      rewrite (tinv_abs _ _ T0), map_length. rewrite !app_nil_r. split; [reflexivity|split; [reflexivity|split; reflexivity]].
     - cbn [fold_left].
       assert (Le : live h0 e) by (apply (lk_live _ _ (ti_linked _ _ T0)); apply in_or_app; right; left; reflexivity).
-      rewrite (key_of_keyf h0 e Le). cbn [map filter]. unfold P at 2. rewrite (kvf_pair h0 e). cbn [fst].
+      rewrite (key_of_keyf h0 e Le). cbn [map filter].
+      assert (Pe : P (kvf h0 e) = is_some (a_get other (keyf h0 e))) by (unfold P, keyf; reflexivity).
+      rewrite Pe. clear Pe.
       destruct (a_get other (keyf h0 e)) eqn:Eg; cbn [is_some].
       + assert (T0' : tinv h0 ((kept ++ [e]) ++ rest)) by (rewrite <- app_assoc; exact T0).
         specialize (IH (kept ++ [e]) h0 I0 c0 T0'). cbn zeta in IH. destruct IH as (HT & A & C & Cp & As).
         split; [exact HT|split; [|split; [|auto]]].
-        * rewrite A, map_app, <- app_assoc. cbn [map app]. rewrite <- kvf_pair. reflexivity.
+        * rewrite A, map_app, <- app_assoc. reflexivity.
         * rewrite C, <- app_assoc. reflexivity.
       + destruct (abs_remove_entry h0 I0 kept rest e T0) as (T1 & _ & C1 & S1 & _).
         pose proof (remove_entry_kvf h0 I0 kept rest e T0) as Kv.
